@@ -3,7 +3,8 @@
 (* Enumerates the abstract cases of C20's merge half as NDJSON: for every  *)
 (* shape class of ConfigMerge, every split of its leaves into file only /  *)
 (* environment only / both (conflicting values) / neither that a file can  *)
-(* express (Representable) with at most MaxEnv environment variables, and  *)
+(* express (Representable) with at most MaxEnv environment variables and   *)
+(* that leaves no hole in a list of the configuration as a whole, and      *)
 (* enumeration orders of the environment (all permutations, or a seeded    *)
 (* selection).  The driver binds the abstract leaves to real configuration *)
 (* paths, executes the load and records the observation; ConfigMergeTrace  *)
@@ -32,7 +33,9 @@ Splits(name) ==
       n == Len(ls)
   IN {s \in [1..n -> {"F", "E", "B", "N"}] :
         /\ Cardinality({i \in 1..n : s[i] \in {"E", "B"}}) <= MaxEnv
-        /\ DenseLists({ls[i] : i \in {j \in 1..n : s[j] \in {"F", "B"}}})}
+        /\ DenseLists({ls[i] : i \in {j \in 1..n : s[j] \in {"F", "B"}}})
+        \* the configuration as a whole has no list element nobody defines
+        /\ DenseLists({ls[i] : i \in {j \in 1..n : s[j] # "N"}})}
 
 Perms(E) == LET k == Cardinality(E) IN
             {f \in [1..k -> E] : \A i \in 1..k, j \in 1..k : f[i] = f[j] => i = j}
